@@ -1,6 +1,6 @@
-// C16 harness, 3D hexahedral meshes, same-space pairs, scalar routes (see common/vasm16.hpp, vasm16_scalar.hpp)
+// C16 harness, 3D hexahedral meshes, all pair families, scalar routes (see common/vasm16.hpp, vasm16_scalar.hpp)
 #define C16_SAME 1
-#define C16_MIXED 0
+#define C16_MIXED 1
 #include "vasm16_scalar.hpp"
 vj::Value run_case(const vj::Value& c) { return va::run_scalar_case<FEAT::Shape::Hypercube<3>>(c); }
 int main(int argc, char** argv) { return vh::main_loop(argc, argv); }
